@@ -6,6 +6,7 @@ import (
 	"fmt"
 	"math"
 	"sort"
+	"strconv"
 	"strings"
 	"testing"
 
@@ -718,15 +719,18 @@ var checkDot = ev.Register("dot", func(c *DotCase) ev.Outcome {
 		}
 	}
 	text := d.Sprint(graph.IntGraph(c.Adj))
-	stmts, name, err := parseDot(text)
+	// The property is about what the text *means* as a dot graph - every node and every edge
+	// named once, strings surviving the quoting - not about its layout: the parser accepts any
+	// spacing, statement order, node naming scheme and attribute order.
+	g, err := parseDot(text)
 	if err != nil {
 		return ev.Fail("Dot output does not parse: %v\n%s", err, text)
 	}
-	if name != c.Name {
-		return ev.Fail("graph name unescapes to %q, want %q", name, c.Name)
+	if g.name != c.Name {
+		return ev.Fail("graph name unescapes to %q, want %q\n%s", g.name, c.Name, text)
 	}
-	// expected statements in order
-	var want []dotStmt
+	// what each node must say about itself (as a canonical signature), and each edge
+	wantNode := make([]string, n)
 	for v := 0; v < n; v++ {
 		var attrs []AttrSpec
 		haveLabel := false
@@ -745,118 +749,206 @@ var checkDot = ev.Register("dot", func(c *DotCase) ev.Outcome {
 			}
 			attrs = append(attrs, AttrSpec{Name: "label", Kind: "string", S: l})
 		}
-		want = append(want, dotStmt{from: v, to: -1, attrs: renderAll(attrs)})
+		wantNode[v] = wantSig(attrs)
+	}
+	if len(g.nodes) != n {
+		return ev.Fail("Dot output declares %d nodes, the graph has %d\n%s", len(g.nodes), n, text)
+	}
+	// every declared node must be one of the graph's nodes: compare as multisets of signatures
+	gotSigs, wantSigs := []string{}, append([]string(nil), wantNode...)
+	sigOf := map[string]string{}
+	for id, attrs := range g.nodes {
+		sg := gotSig(attrs)
+		sigOf[id] = sg
+		gotSigs = append(gotSigs, sg)
+	}
+	sort.Strings(gotSigs)
+	sort.Strings(wantSigs)
+	for k := range wantSigs {
+		if gotSigs[k] != wantSigs[k] {
+			return ev.Fail("node statements carry %q, the nodes are %q (as sorted attribute signatures; strings after unescaping)\n%s", gotSigs, wantSigs, text)
+		}
+	}
+	// edges: every edge once, between the right nodes (identified by what the nodes say about
+	// themselves - exact when those signatures are distinct, which the generator mostly ensures)
+	var gotE, wantE []string
+	for _, e := range g.edges {
+		fs, ok1 := sigOf[e.from]
+		ts, ok2 := sigOf[e.to]
+		if !ok1 || !ok2 {
+			return ev.Fail("edge %s -> %s refers to a node that is not declared\n%s", e.from, e.to, text)
+		}
+		gotE = append(gotE, fs+" => "+ts+" : "+gotSig(e.attrs))
+	}
+	for v := 0; v < n; v++ {
 		for _, to := range c.Adj[v] {
 			var ea []AttrSpec
 			if c.EdgeAttrs != nil {
 				ea = c.EdgeAttrs[v]
 			}
-			want = append(want, dotStmt{from: v, to: to, attrs: renderAll(ea)})
+			wantE = append(wantE, wantNode[v]+" => "+wantNode[to]+" : "+wantSig(ea))
 		}
 	}
-	if len(stmts) != len(want) {
-		return ev.Fail("Dot output has %d statements, want %d (one per node and per edge)\n%s", len(stmts), len(want), text)
+	if len(gotE) != len(wantE) {
+		return ev.Fail("Dot output has %d edges, the graph has %d\n%s", len(gotE), len(wantE), text)
 	}
-	for i := range want {
-		if stmts[i].from != want[i].from || stmts[i].to != want[i].to {
-			return ev.Fail("statement %d is n%d -> n%d, want n%d -> n%d (to=-1: node statement)\n%s", i, stmts[i].from, stmts[i].to, want[i].from, want[i].to, text)
+	sort.Strings(gotE)
+	sort.Strings(wantE)
+	for k := range wantE {
+		if gotE[k] != wantE[k] {
+			return ev.Fail("edge statements differ from the graph's edges: got %q, want %q\n%s", gotE[k], wantE[k], text)
 		}
-		if len(stmts[i].attrs) != len(want[i].attrs) {
-			return ev.Fail("statement %d has attributes %v, want %v\n%s", i, stmts[i].attrs, want[i].attrs, text)
-		}
-		for j := range want[i].attrs {
-			if stmts[i].attrs[j] != want[i].attrs[j] {
-				return ev.Fail("statement %d attribute %d is %+v, want %+v\n%s", i, j, stmts[i].attrs[j], want[i].attrs[j], text)
-			}
-		}
+	}
+	distinct := map[string]bool{}
+	for _, w := range wantNode {
+		distinct[w] = true
 	}
 	special := strings.ContainsAny(c.Name+strings.Join(c.Labels, ""), "\"\\\n{}<>|")
-	cl := "dot-plain"
+	cl := []string{"dot-plain"}
 	if special {
-		cl = "dot-special-characters"
+		cl = []string{"dot-special-characters"}
 	}
-	return ev.OK(n >= 1 && special, cl)
+	if len(distinct) == n {
+		cl = append(cl, "dot-nodes-identifiable")
+	}
+	return ev.OK(n >= 1 && special, cl...)
 })
 
-type dotAttr struct {
-	name, val string
-	quoted    bool
+// canonical attribute signatures: name=value pairs sorted; numbers compared by value
+func canonVal(v string) string {
+	if f, err := strconv.ParseFloat(v, 64); err == nil {
+		return "#" + strconv.FormatFloat(f, 'g', -1, 64)
+	}
+	return "$" + v
 }
 
-type dotStmt struct {
-	from, to int
+func wantSig(as []AttrSpec) string {
+	var parts []string
+	for _, a := range as {
+		// quoting is not part of the meaning ("1.5" and 1.5 are the same dot value)
+		v, _ := a.rendered()
+		parts = append(parts, a.Name+"="+canonVal(v))
+	}
+	sort.Strings(parts)
+	return strings.Join(parts, "\x00")
+}
+
+func gotSig(as []dotAttr) string {
+	var parts []string
+	for _, a := range as {
+		parts = append(parts, a.name+"="+a.val)
+	}
+	sort.Strings(parts)
+	return strings.Join(parts, "\x00")
+}
+
+type dotAttr struct {
+	name, val string // val in canonical form
+}
+
+type dotEdge struct {
+	from, to string
 	attrs    []dotAttr
 }
 
-func renderAll(as []AttrSpec) []dotAttr {
-	var out []dotAttr
-	for _, a := range as {
-		v, q := a.rendered()
-		out = append(out, dotAttr{a.Name, v, q})
-	}
-	return out
+type dotGraph struct {
+	name  string
+	nodes map[string][]dotAttr
+	edges []dotEdge
 }
 
-// parseDot is a small quote-aware parser of the subset of the dot language
-// that graphout produces.
-func parseDot(text string) (stmts []dotStmt, name string, err error) {
+// parseDot reads the dot language as far as a graph printer can use it: digraph [ID] { stmts },
+// node and edge statements with attribute lists, the node/edge/graph default statements
+// (ignored), IDs bare or double-quoted, any white space, ';' optional.
+func parseDot(text string) (*dotGraph, error) {
 	p := &dotParser{s: text}
-	if !p.lit("digraph ") {
-		return nil, "", fmt.Errorf("missing 'digraph '")
+	g := &dotGraph{nodes: map[string][]dotAttr{}}
+	tok, q, err := p.next()
+	if err != nil || q || tok != "digraph" {
+		return nil, fmt.Errorf("does not start with 'digraph'")
 	}
-	name, err = p.quoted()
+	tok, q, err = p.next()
 	if err != nil {
-		return nil, "", err
+		return nil, err
 	}
-	if !p.lit(" {\n") {
-		return nil, "", fmt.Errorf("missing ' {' after the name at %d", p.i)
+	if q || tok != "{" {
+		g.name = tok
+		if tok, q, err = p.next(); err != nil {
+			return nil, err
+		}
+	}
+	if q || tok != "{" {
+		return nil, fmt.Errorf("missing '{'")
 	}
 	for {
-		if p.lit("}\n") {
-			if p.i != len(p.s) {
-				return nil, "", fmt.Errorf("trailing text after '}'")
+		tok, q, err = p.next()
+		if err != nil {
+			return nil, err
+		}
+		if !q && tok == "}" {
+			if t2, _, e2 := p.next(); e2 == nil && t2 != "" {
+				return nil, fmt.Errorf("text after the closing '}'")
 			}
-			return stmts, name, nil
+			return g, nil
 		}
-		var st dotStmt
-		st.to = -1
-		if st.from, err = p.node(); err != nil {
-			return nil, "", err
+		if !q && tok == ";" {
+			continue
 		}
-		if p.lit(" -> ") {
-			if st.to, err = p.node(); err != nil {
-				return nil, "", err
+		if !q && (tok == "" || strings.ContainsAny(tok, "{}[]=,") || tok == "->") {
+			return nil, fmt.Errorf("unexpected %q at %d", tok, p.i)
+		}
+		from, to, isEdge := tok, "", false
+		save := p.i
+		t2, q2, e2 := p.next()
+		if e2 == nil && !q2 && t2 == "->" {
+			if to, _, err = p.next(); err != nil || to == "" {
+				return nil, fmt.Errorf("edge without a head at %d", p.i)
 			}
+			isEdge = true
+		} else {
+			p.i = save
 		}
-		if p.lit(" [") {
+		var attrs []dotAttr
+		for {
+			save = p.i
+			t3, q3, e3 := p.next()
+			if e3 != nil || q3 || t3 != "[" {
+				p.i = save
+				break
+			}
 			for {
-				var a dotAttr
-				a.name = p.until("=")
-				if !p.lit("=") {
-					return nil, "", fmt.Errorf("attribute without '=' at %d", p.i)
+				nm, qn, e := p.next()
+				if e != nil {
+					return nil, e
 				}
-				if p.i < len(p.s) && p.s[p.i] == '"' {
-					a.quoted = true
-					if a.val, err = p.quoted(); err != nil {
-						return nil, "", err
-					}
-				} else {
-					a.val = p.until(",]")
-				}
-				st.attrs = append(st.attrs, a)
-				if p.lit(",") {
-					continue
-				}
-				if p.lit("]") {
+				if !qn && nm == "]" {
 					break
 				}
-				return nil, "", fmt.Errorf("bad attribute list at %d", p.i)
+				if !qn && (nm == "," || nm == ";") {
+					continue
+				}
+				if eq, qe, e := p.next(); e != nil || qe || eq != "=" {
+					return nil, fmt.Errorf("attribute %q without '=' at %d", nm, p.i)
+				}
+				val, qv, e := p.next()
+				if e != nil {
+					return nil, e
+				}
+				_ = qv
+				attrs = append(attrs, dotAttr{nm, canonVal(val)})
 			}
 		}
-		if !p.lit(";\n") {
-			return nil, "", fmt.Errorf("statement not terminated by ';' at %d", p.i)
+		switch {
+		case isEdge:
+			g.edges = append(g.edges, dotEdge{from, to, attrs})
+		case !q && (from == "node" || from == "edge" || from == "graph"):
+			// defaults: not a node
+		default:
+			if _, dup := g.nodes[from]; dup {
+				return nil, fmt.Errorf("node %s is declared twice", from)
+			}
+			g.nodes[from] = attrs
 		}
-		stmts = append(stmts, st)
 	}
 }
 
@@ -865,43 +957,38 @@ type dotParser struct {
 	i int
 }
 
-func (p *dotParser) lit(l string) bool {
-	if strings.HasPrefix(p.s[p.i:], l) {
-		p.i += len(l)
-		return true
+// next returns the next token: punctuation, a bare ID, or the unescaped content of a quoted
+// string (quoted = true). At the end it returns "".
+func (p *dotParser) next() (tok string, quoted bool, err error) {
+	for p.i < len(p.s) && (p.s[p.i] == ' ' || p.s[p.i] == '\t' || p.s[p.i] == '\n' || p.s[p.i] == '\r') {
+		p.i++
 	}
-	return false
-}
-
-func (p *dotParser) until(stop string) string {
+	if p.i >= len(p.s) {
+		return "", false, nil
+	}
+	ch := p.s[p.i]
+	switch {
+	case ch == '"':
+		v, e := p.quoted()
+		return v, true, e
+	case strings.HasPrefix(p.s[p.i:], "->"):
+		p.i += 2
+		return "->", false, nil
+	case strings.ContainsRune("{}[]=,;", rune(ch)):
+		p.i++
+		return string(ch), false, nil
+	}
 	j := p.i
-	for j < len(p.s) && !strings.ContainsRune(stop, rune(p.s[j])) && p.s[j] != '\n' {
+	for j < len(p.s) && !strings.ContainsRune(" \t\n\r{}[]=,;\"", rune(p.s[j])) && !strings.HasPrefix(p.s[j:], "->") {
 		j++
 	}
-	out := p.s[p.i:j]
+	tok = p.s[p.i:j]
 	p.i = j
-	return out
+	return tok, false, nil
 }
 
-func (p *dotParser) node() (int, error) {
-	if !p.lit("n") {
-		return 0, fmt.Errorf("expected a node id at %d", p.i)
-	}
-	j := p.i
-	for j < len(p.s) && p.s[j] >= '0' && p.s[j] <= '9' {
-		j++
-	}
-	if j == p.i {
-		return 0, fmt.Errorf("expected digits at %d", p.i)
-	}
-	v := 0
-	fmt.Sscan(p.s[p.i:j], &v)
-	p.i = j
-	return v, nil
-}
-
-// quoted reads a double-quoted string and unescapes it: \n is a newline, any
-// other backslash pair stands for its second character.
+// quoted reads a double-quoted string and unescapes it: \n is a newline, any other backslash
+// pair stands for its second character; a raw newline is itself.
 func (p *dotParser) quoted() (string, error) {
 	if p.i >= len(p.s) || p.s[p.i] != '"' {
 		return "", fmt.Errorf("expected '\"' at %d", p.i)
@@ -925,8 +1012,6 @@ func (p *dotParser) quoted() (string, error) {
 		case ch == '"':
 			p.i++
 			return string(out), nil
-		case ch == '\n':
-			return "", fmt.Errorf("raw newline inside a quoted string at %d", p.i)
 		default:
 			out = append(out, ch)
 			p.i++
@@ -1194,8 +1279,15 @@ func TestDot(t *testing.T) {
 		c := &DotCase{Adj: drawAdj(rt, 8), Name: str.Draw(rt, "name")}
 		n := len(c.Adj)
 		if rapid.Bool().Draw(rt, "labels") {
+			// mostly distinct (a different tail per node), so that every node statement can
+			// be told apart by what it says and the edges are checked exactly
+			uniq := rapid.IntRange(0, 3).Draw(rt, "distinctLabels") != 0
 			for i := 0; i < n; i++ {
-				c.Labels = append(c.Labels, str.Draw(rt, "label"))
+				l := str.Draw(rt, "label")
+				if uniq {
+					l += string(rune('A' + i))
+				}
+				c.Labels = append(c.Labels, l)
 			}
 		}
 		if rapid.Bool().Draw(rt, "nodeAttrs") {
